@@ -89,6 +89,9 @@ def run(rep, tier, seed):
     q = tier == "quick"
     mr = 2000 if q else None
     configs = [
+        dict(name="rev_complex", module="MC_CTracer", maxinstr=2, maxhist=2, ops="OpsA1", points="PtsCx", seeds="SeedsCx", max_replay=mr),
+        dict(name="rev_complex_views", module="MC_CTracer", maxinstr=2, maxhist=2, ops="OpsA4", points="PtsCx", seeds="SeedsCx", max_replay=mr),
+        dict(name="rev_complex_P2", module="MC_CTracer", P=2, maxinstr=2, maxhist=2, ops="OpsCore", points="PtsCxP2", seeds="SeedsCx", max_replay=mr),
         dict(name="rev_two_independents", maxinstr=2, maxhist=2, ops="OpsTwo", points="PtsTwo", seeds="SeedsB", prefix="two", NI=2, max_replay=mr),
         dict(name="rev_A1", maxinstr=3, maxhist=2, ops="OpsA1", points="PtsD2", seeds="SeedsB", max_replay=mr),
         dict(name="rev_A2", maxinstr=3, maxhist=2, ops="OpsA2", points="PtsD2", seeds="SeedsB", max_replay=mr),
